@@ -3,12 +3,15 @@
 package main
 
 import (
+	"context"
 	"fmt"
 	"os"
 	"strconv"
+	"strings"
 
 	"github.com/miekg/dns"
 	"github.com/semihalev/sdns/internal/verif/vlib"
+	"github.com/semihalev/sdns/middleware"
 )
 
 func explore() {
@@ -50,17 +53,112 @@ func explore() {
 	_ = dns.TypeA
 }
 
+func exec(op string) vlib.Res {
+	f := strings.Fields(op)
+	if len(f) < 2 {
+		return vlib.Res{Impl: "bad-op"}
+	}
+	switch f[0] + " " + f[1] {
+	case "ledger new":
+		return ledgerNew(f[2], csvU32(f[3]))
+	case "ledger debit":
+		return ledgerDebit(vlib.Atoi(f[3]), false)
+	case "ledger debitbe":
+		return ledgerDebit(vlib.Atoi(f[3]), true)
+	case "ledger check":
+		kind, used, latch := vlib.Atoi(f[2]), uint32(vlib.AtoU64(f[3])), f[4] == "t"
+		ctx := curCtx
+		if !latch {
+			ctx = middleware.WithBestEffortRecursionWork(ctx)
+		}
+		err := middleware.CheckRecursionWorkLocalLimit(ctx, middleware.RecursionWorkKind(kind), used)
+		or := "ok"
+		if err != nil && curPolicy.Mode != middleware.RecursionWorkEnforce {
+			or = "FAIL sig=ledger/check/non-enforce-mode-rejected"
+		}
+		if err == nil && curPolicy.Mode == middleware.RecursionWorkEnforce && used >= policyCaps(curPolicy)[kind] {
+			or = "FAIL sig=ledger/check/local-limit-not-enforced"
+		}
+		return vlib.Res{Impl: resStr(err), Oracle: or, Tags: "nt"}
+	case "ledger reject":
+		kind, latch := vlib.Atoi(f[2]), f[3] == "t"
+		ctx := curCtx
+		if !latch {
+			ctx = middleware.WithBestEffortRecursionWork(ctx)
+		}
+		err := middleware.RejectRecursionWork(ctx, middleware.RecursionWorkKind(kind))
+		or := "ok"
+		if err != nil && curPolicy.Mode != middleware.RecursionWorkEnforce {
+			or = "FAIL sig=ledger/reject/non-enforce-mode-rejected"
+		}
+		return vlib.Res{Impl: resStr(err), Oracle: or}
+	case "ledger enf":
+		return ledgerEnf()
+	case "ledger snap":
+		return ledgerSnap()
+	case "ledger retain":
+		if curLedger == nil {
+			return vlib.Res{Impl: "no", Oracle: "ok"}
+		}
+		rel, ok := curLedger.Retain()
+		if ok {
+			releases = append(releases, rel)
+			return vlib.Res{Impl: "ok", Oracle: "ok"}
+		}
+		return vlib.Res{Impl: "no", Oracle: "ok"}
+	case "ledger release":
+		if len(releases) == 0 {
+			return vlib.Res{Impl: "none", Oracle: "ok"}
+		}
+		rel := releases[len(releases)-1]
+		releases = releases[:len(releases)-1]
+		rel()
+		rel() // idempotent
+		return vlib.Res{Impl: "ok", Oracle: "ok"}
+	case "ledger finish":
+		if curLedger != nil {
+			middleware.VerifC12Finish(curLedger)
+		}
+		return vlib.Res{Impl: "ok", Oracle: "ok"}
+	case "ledger storm":
+		return ledgerStorm(vlib.Atoi(f[2]), vlib.Atoi(f[3]), vlib.Atoi(f[4]), vlib.Atoi(f[5]))
+	case "guard new":
+		curGuard = middleware.NewResolutionAttemptGuard()
+		refGuard = map[string]int{}
+		or := "ok"
+		if n := middleware.VerifC12MaxResolutionAttempts(); n != vlib.Atoi(f[2]) {
+			return vlib.Res{Impl: "stale-limit", Oracle: "-"}
+		} else if n > 3 || n < 1 {
+			or = fmt.Sprintf("FAIL sig=guard/new/attempt-limit-not-rfc9520 n=%d", n)
+		}
+		return vlib.Res{Impl: "ok", Oracle: or}
+	case "guard begin":
+		return guardBegin(f[2], f[3], f[4], uint16(vlib.Atoi(f[5])), uint16(vlib.Atoi(f[6])), f[7])
+	case "fail classify":
+		return failClassify(f[2], f[3] == "t", f[4], f[5], f[6])
+	case "pipe new":
+		return pipeNew(f[2], csvU32(f[3]))
+	case "pipe query":
+		return pipeQuery(vlib.Atoi(f[2]), f[3] == "t", f[4] == "t", f[5], vlib.Atoi(f[6]), vlib.Atoi(f[7]))
+	case "sub nest":
+		return subNest(f[2], uint32(vlib.AtoU64(f[3])))
+	case "loop new":
+		loopResolver = bareResolver(5)
+		loopCtx = context.Background()
+		refLoop = map[string]int{}
+		return vlib.Res{Impl: "ok", Oracle: "ok"}
+	case "loop check":
+		return loopCheck(f[2], uint16(vlib.Atoi(f[3])))
+	case "min check":
+		return minCheck(vlib.Atoi(f[2]), f[3], vlib.Atoi(f[4]), f[5] == "t")
+	}
+	return vlib.Res{Impl: "bad-op"}
+}
+
 func main() {
 	if len(os.Args) > 1 && os.Args[1] == "explore" {
 		explore()
 		return
 	}
-	vlib.Main(&vlib.Driver{Facts: func() map[string]any { return map[string]any{} }, Exec: func(string) vlib.Res { return vlib.Res{Impl: "bad-op"} }, Gen: func(r *vlib.R, n int, tier string, emit func(string)) {}})
-}
-
-func short(m *dns.Msg) string {
-	if m == nil {
-		return "noreply"
-	}
-	return fmt.Sprintf("rc=%d ad=%v an=%d", m.Rcode, m.AuthenticatedData, len(m.Answer))
+	vlib.Main(&vlib.Driver{Facts: func() map[string]any { return map[string]any{} }, Exec: exec, Gen: func(r *vlib.R, n int, tier string, emit func(string)) {}})
 }
